@@ -343,6 +343,9 @@ func (c *conn) journalled(kind, query string, args []Value, f func() ([]*result,
 		if flt.Action == "drop" {
 			c.die()
 			err = mysql.ErrInvalidConn
+		} else if flt.Action == "badconn" {
+			c.die()
+			err = driver.ErrBadConn
 		} else if flt.Action == "cancel" {
 			if s.cancelFn != nil {
 				s.cancelFn()
@@ -500,6 +503,9 @@ func (c *conn) BeginTx(ctx context.Context, opts driver.TxOptions) (driver.Tx, e
 		if flt.Action == "drop" {
 			c.die()
 			err = mysql.ErrInvalidConn
+		} else if flt.Action == "badconn" {
+			c.die()
+			err = driver.ErrBadConn
 		} else {
 			err = myErr(flt.ErrNo, "fakedb: injected fault")
 		}
@@ -557,6 +563,10 @@ func (t *driverTx) finish(kind string) error {
 		e.Injected = true
 		c.die()
 		err = mysql.ErrInvalidConn
+	case flt.Action == "badconn":
+		e.Injected = true
+		c.die()
+		err = driver.ErrBadConn
 	case flt.Action == "after":
 		e.Injected = true
 		do()
